@@ -621,3 +621,20 @@ func (n *VNode) VPrimeRatesAround(blk *types.WorkObject) []VPrimeRate {
 	}
 	return out
 }
+
+// VProcessFingerprintWithDeletes: like VProcessFingerprint but also renders the sorted SET of keys
+// the run deleted through the batch (trimming deletes expired outputs there).
+func (n *VNode) VProcessFingerprintWithDeletes(blk *types.WorkObject) (string, error) {
+	z := n.Sl[2]
+	var dels []string
+	hb := ethdb.HookedBatch{Batch: n.DB[2].NewBatch(), OnDelete: func(k []byte) { dels = append(dels, fmt.Sprintf("del:%x", k[:10])) }}
+	receipts, etxs, _, statedb, usedGas, usedState, utxoSetSize, multiSet, _, err := z.hc.bc.processor.Process(blk, hb)
+	hb.Reset()
+	if err != nil {
+		return "", err
+	}
+	sort.Strings(dels)
+	rs := types.DeriveSha(receipts, trie.NewStackTrie(nil))
+	es := types.DeriveSha(types.Transactions(etxs), trie.NewStackTrie(nil))
+	return fmt.Sprintf("receiptRoot=%x etxRoot=%x gas=%d state=%d setSize=%d muhash=%x evm=%x %v", rs[:6], es[:6], usedGas, usedState, utxoSetSize, multiSet.Hash().Bytes()[:8], statedb.IntermediateRoot(true).Bytes()[:6], dels), nil
+}
